@@ -99,6 +99,10 @@ def run(ctx):
     # ---- (2) model vs implementation
     model = run_model_parallel(ctx, case_lines) if (case_lines and os.path.exists(vlib.MODEL)) else {}
     n_lex_eq = n_tree = n_tree_eq = n_hyp = n_lossless = 0
+    n_gram = n_gram_eq = 0
+    gram_trace = 0
+    gram_diffs = []
+    gram_by_stream = {}
     distinct = set()
     samples = []
     lex_diffs, tree_diffs = [], []
@@ -135,6 +139,16 @@ def run(ctx):
                 tree_diffs.append({"id": cid, "input_hex": hx, "input": unhex(hx)[:200],
                                    "model_tree": m[1][:300], "real_tree": r[0][:300],
                                    "model_diag_ranges": mdiag[:10], "real_diag_ranges": tail[:10]})
+            if "gram" in flags:
+                n_gram += 1
+                st = re.sub(r"[0-9]+$", "", cid)
+                gram_by_stream[st] = gram_by_stream.get(st, 0) + 1
+                gram_trace |= int(flags.get("trace", 0))
+                if flags["gram"] == "EQ":
+                    n_gram_eq += 1
+                else:
+                    gram_diffs.append({"id": cid, "input_hex": hx, "input": unhex(hx)[:300], "model": flags["gram"],
+                                       "first_difference": (m[4] if len(m) > 4 else "")[:300]})
             if hyp and flags.get("lossless") != "true":
                 ctx.broken_ties.append(("model contradicts buildTree_lossless", cid))
             if len(samples) < 3 and cid.startswith("r") and len(hx) < 160:
@@ -148,6 +162,32 @@ def run(ctx):
         tree_diffs.sort(key=lambda d: len(d["input_hex"]))
         ctx.broken_ties.append(("L1 tree: buildTree(real events, real tokens) != build_tree",
                                 f"{len(tree_diffs)} inputs; smallest: " + json.dumps(tree_diffs[0], ensure_ascii=False)))
+
+    if gram_diffs:
+        gram_diffs.sort(key=lambda d: len(d["input_hex"]))
+        ctx.broken_ties.append(("L1 grammar: flatL(run file) on the real token kinds != Parser.events",
+                                f"{len(gram_diffs)} inputs; smallest: " + json.dumps(gram_diffs[0], ensure_ascii=False)))
+    if case_lines and n_gram == 0:
+        ctx.broken_ties.append(("grammar tie", "the model driver answered no grammar comparison"))
+    # which modelled grammar functions / loop heads were entered by the model while it reproduced the real events
+    gram_cov = {}
+    if os.path.exists(vlib.MODEL):
+        p = vlib.srun([vlib.MODEL, "grammar"], input="", stdout=subprocess.PIPE, stderr=subprocess.PIPE, text=True, timeout=120)
+        fns, loops, missing = [], [], []
+        for l in p.stdout.split("\n"):
+            f = l.split("\t")
+            if len(f) == 4 and f[0] == "F":
+                if f[2] != "-":
+                    fns.append((f[1], int(f[2])))
+                for i, x in enumerate([x for x in f[3].split(",") if x]):
+                    loops.append((f"{f[1]}#loop{i + 1}", int(x)))
+        hit_f = [n for n, i in fns if gram_trace >> i & 1]
+        hit_l = [n for n, i in loops if gram_trace >> i & 1]
+        missing = [n for n, i in fns + loops if not gram_trace >> i & 1]
+        gram_cov = {"grammar_functions_modelled": len(fns), "grammar_functions_exercised": len(hit_f),
+                    "loop_heads_modelled": len(loops), "loop_heads_exercised": len(hit_l), "not_exercised": missing}
+        if case_lines and not ctx.replay and missing:
+            ctx.broken_ties.append(("grammar tie coverage", f"modelled functions / loops never entered: {missing}"))
 
     streams = {k.split(":", 1)[1]: int(v) for k, v in stats.items() if k.startswith("stream:")}
     cov = {
@@ -168,8 +208,10 @@ def run(ctx):
         "lexer_tie_equal": n_lex_eq, "lexer_tie_diffs": len(lex_diffs),
         "tree_tie_cases": n_tree, "tree_tie_equal": n_tree_eq, "tree_tie_diffs": len(tree_diffs),
         "real_event_lists_inside_buildTree_lossless_hypotheses": n_hyp,
+        "grammar_tie_cases": n_gram, "grammar_tie_equal": n_gram_eq, "grammar_tie_diffs": len(gram_diffs),
+        "grammar_tie_cases_by_id_prefix": gram_by_stream, "grammar_coverage": gram_cov,
         "model_trees_lossless": n_lossless,
-        "impl_oracle_failures": len(oracle_rows), "model_diffs": len(lex_diffs) + len(tree_diffs),
+        "impl_oracle_failures": len(oracle_rows), "model_diffs": len(lex_diffs) + len(tree_diffs) + len(gram_diffs),
     }
     ctx.assumptions += [
         "logos' generated automaton is not modelled state by state: the model is 'longest match, then priority' over the "
